@@ -45,9 +45,10 @@ theorem demand_grow {s s1 : St N I F V S} {m : N} (h : demand C σ s m = .ok s1)
   unfold demand at h
   split at h
   · cases h; exact Grow.refl _
-  · split at h
+  · rename_i hms
+    split at h
     · rename_i hmf
-      simp only [hmf, if_true] at h
+      simp only [hmf, if_true, hms, if_false] at h
       cases h
       exact ⟨fun n hn => List.mem_append_left _ hn, fun _ h => h, fun _ h => h⟩
     · cases hfo : C.formOfN m with
@@ -58,10 +59,12 @@ theorem demand_grow {s s1 : St N I F V S} {m : N} (h : demand C σ s m = .ok s1)
         | error e => simp [hadd] at h
         | ok s0 =>
           simp only [hadd] at h
+          have g := addForm_grow hadd
           split at h
-          · cases h
-            have g := addForm_grow hadd
-            exact ⟨fun n hn => List.mem_append_left _ (g.sol n hn), g.forms, g.specs⟩
+          · split at h
+            · cases h; exact g
+            · cases h
+              exact ⟨fun n hn => List.mem_append_left _ (g.sol n hn), g.forms, g.specs⟩
           · simp at h
 
 theorem attemptField_grow (fuel : Nat) : ∀ {s s' : St N I F V S} {n : N},
@@ -272,8 +275,10 @@ theorem demand_below (hC : CatWF C) {s s1 T : St N I F V S} {m : N} (hb : Below 
   unfold demand at h
   split at h
   · cases h; exact hb
-  · have key : ∀ s0 : St N I F V S, Below s0 T →
-        Below { s0 with queue := σ.sortQ (s0.queue ++ [m]), solving := s0.solving ++ [m] } T := by
+  · rename_i hms
+    have key : ∀ s0 : St N I F V S, Below s0 T →
+        Below { s0 with queue := σ.sortQ (s0.queue ++ [m]), solving := s0.solving ++ [m],
+                        log := .push m :: s0.log } T := by
       intro s0 hb0
       refine ⟨?_, hb0.forms, hb0.specs, hb0.v, hb0.inp⟩
       intro n hn
@@ -284,7 +289,7 @@ theorem demand_below (hC : CatWF C) {s s1 T : St N I F V S} {m : N} (hb : Below 
       · exact hm
     split at h
     · rename_i hmf
-      simp only [hmf, if_true] at h
+      simp only [hmf, if_true, hms, if_false] at h
       cases h
       exact key s hb
     · cases hfo : C.formOfN m with
@@ -295,10 +300,12 @@ theorem demand_below (hC : CatWF C) {s s1 T : St N I F V S} {m : N} (hb : Below 
         | error e => simp [hadd] at h
         | ok s0 =>
           simp only [hadd] at h
+          obtain ⟨a, b⟩ := hform f hfo
           split at h
-          · cases h
-            obtain ⟨a, b⟩ := hform f hfo
-            exact key s0 (hb.addForm hT (fun _ => a) b hadd)
+          · split at h
+            · cases h; exact hb.addForm hT (fun _ => a) b hadd
+            · cases h
+              exact key s0 (hb.addForm hT (fun _ => a) b hadd)
           · simp at h
 
 /-- **One attempt keeps the state below every closed final state.** -/
